@@ -330,8 +330,9 @@ def case_users(ctx, rng, idx):
                    cls=kind, detail={**tag, "user": p, "ratio": ratio,
                                      "dist_over_R": abs(p - s.pos) / R})
     # the cell moves (setter or relative move): its users move with it
-    if kind in ("cell", "cell3sec") and users and rng.random() < 0.5:
+    if kind in ("cell", "cell3sec", "cell3sec-sector") and users and rng.random() < 0.5:
         newpos = rand_pos(rng)
+        oldpos, oldusers = complex(s.pos), [complex(u.pos) for u in s.users]
         how = int(rng.integers(0, 3))
         if how == 0:
             s.pos = newpos
@@ -341,7 +342,13 @@ def case_users(ctx, rng, idx):
             dl = newpos - s.pos
             s.move_by_relative_polar_coordinate(abs(dl), math.atan2(dl.imag, dl.real))
         V2 = np.asarray(s.vertices)
-        scale2 = abs(s.pos) + R
+        scale2 = abs(s.pos) + R + abs(oldpos)
+        # ... rigidly: every user keeps its offset to the cell centre
+        for u, po in zip(s.users, oldusers):
+            ctx.within("users-inside", abs((complex(u.pos) - complex(s.pos)) - (po - oldpos)),
+                       64 * EPS * scale2, "%s:moved-rigidly-with-cell" % kind.split("-")[0],
+                       {**tag, "user_before": po, "user_after": complex(u.pos),
+                        "cell_before": oldpos, "cell_after": complex(s.pos)})
         for u in s.users:
             p = complex(u.pos)
             if dist_to_boundary(p, V2) < 1e-9 * R + 64 * EPS * scale2:
@@ -564,12 +571,20 @@ def case_cluster(ctx, rng, idx):
             ang = [[float(a) for a in rng.uniform(-90, 360, size=int(rng.integers(1, 3)))]
                    for _ in ids]
             args, want = (ids, ang, rr), {i: a for i, a in zip(ids, ang)}
+        ratio_of = {i: rr for i in want}
+        if form >= 2 and rng.random() < 0.5:
+            # one ratio per cell
+            rlist = [float(rng.uniform(0.1, 0.95)) for _ in ids]
+            args = (args[0], args[1], rlist)
+            ratio_of = {i: r for i, r in zip(ids, rlist)}
         okc, _ = ctx.call("border-point", cl.add_border_users, *args, cls="cluster:raised",
-                          detail={**tag, "ids": ids, "angles": ang, "form": form})
+                          detail={**tag, "ids": ids, "angles": ang, "form": form,
+                                  "ratios": args[2]})
         if okc:
             for c in cells:
                 new = c.users[before[c.id]:]
                 wa = want.get(c.id, [])
+                rr = ratio_of.get(c.id, rr)
                 ctx.ev("border-point", len(new) == len(wa), cls="cluster:users-per-cell",
                        detail={**tag, "cell": c.id, "got": len(new), "want": len(wa),
                                "form": form})
